@@ -65,4 +65,10 @@ p='customfuncs/datetime.go'; s=open(p).read()
 import re
 open(p,'w').write(s)
 PY
+python3 - <<'PY'
+p='extensions/omniv21/transform/validate.go'; s=open(p).read()
+s=s.replace("""	templateRefStack = append(strs.CopySlice(templateRefStack), templateName)""","""	stackCopy := strs.CopySlice(templateRefStack)
+	templateRefStack = append(stackCopy, templateName)""",1); open(p,'w').write(s)
+PY
+fin tmpl_copy_two_steps C03 extensions/omniv21/transform/validate.go
 echo "harmless corpus: $(wc -l < /verif/selftest/harmless/INDEX) edits"
